@@ -40,3 +40,19 @@ Theorem C06_dispatch_total : forall alg, In alg ["nr"; "iwamoto_nr"; "bfsw"; "gs
   forall o d f, dispatch true alg o d f <> SRaise.
 Proof. exact dispatch_total. Qed.
 Print Assumptions C06_dispatch_total.
+
+(* iwamoto_nr after "fix: iwamoto_nr works on networks without PQ buses": the root that is used always exists ... *)
+Theorem C06_iwamoto_pick_in_range : forall (g3 g2 g1 g0 : QArith_base.Q) k,
+  iwamoto_pick g3 g2 g1 g0 = Some k -> (k < n_roots [g3; g2; g1; g0])%nat.
+Proof. exact iwamoto_pick_in_range. Qed.
+Print Assumptions C06_iwamoto_pick_in_range.
+(* ... and is the former one (index 2) for a genuine cubic *)
+Theorem C06_iwamoto_pick_cubic : forall g3 g2 g1 g0 : QArith_base.Q, ~ (QArith_base.Qeq g3 (QArith_base.Qmake 0 1)) ->
+  iwamoto_pick g3 g2 g1 g0 = Some 2%nat.
+Proof. exact iwamoto_pick_cubic. Qed.
+Print Assumptions C06_iwamoto_pick_cubic.
+(* regression witness: before the repair roots(...)[2] did not exist for a net without PQ buses (IndexError) *)
+Theorem C06_iwamoto_index_old_refuted : exists g1 g0, ~ (QArith_base.Qeq g1 (QArith_base.Qmake 0 1)) /\
+  iwamoto_index_ok_old (QArith_base.Qmake 0 1) (QArith_base.Qmake 0 1) g1 g0 = false.
+Proof. exact iwamoto_index_old_refuted. Qed.
+Print Assumptions C06_iwamoto_index_old_refuted.
